@@ -86,7 +86,21 @@ class Resolver:
         self.binds.setdefault(name, []).append((kind, stmt, value, k))
 
     def _collect(self):
+        rebinding_calls = set()
         for n in _own_nodes(self.fn):
+            if isinstance(n, ast.Expr) and isinstance(n.value, ast.Call) and isinstance(n.value.func, ast.Attribute) \
+                    and n.value.func.attr == "sort" and isinstance(n.value.func.value, ast.Name) and not n.value.args:
+                # value-wise `xs.sort(key=k)` is the re-binding xs = sorted(xs, key=k) (like `x op= v` below)
+                c = n.value
+                v = ast.Call(func=ast.Name(id="sorted", ctx=ast.Load()), args=[ast.Name(id=c.func.value.id, ctx=ast.Load())],
+                             keywords=list(c.keywords))
+                ast.copy_location(v, n)
+                ast.fix_missing_locations(v)
+                self._bind(c.func.value.id, "assign", n, v)
+                rebinding_calls.add(id(c))
+                continue
+            if isinstance(n, ast.Call) and id(n) in rebinding_calls:
+                continue
             if isinstance(n, ast.Assign):
                 for t in n.targets:
                     self._bind_target(t, n, n.value, multi=len(n.targets) > 1)
@@ -333,6 +347,17 @@ class Resolver:
                 new.generators = gens
                 for f in fields:
                     setattr(new, f, r._term(getattr(n, f), at, depth, keep, inner))
+                # a pure projection written with an unpacking header, `[a for a, _ in xs]`, is `[e[0] for e in xs]`
+                if fields == ("elt",) and len(new.generators) == 1 and not new.generators[0].ifs \
+                        and isinstance(new.generators[0].target, ast.Tuple) and isinstance(new.elt, ast.Name) \
+                        and all(isinstance(x, ast.Name) for x in new.generators[0].target.elts):
+                    names = [x.id for x in new.generators[0].target.elts]
+                    if names.count(new.elt.id) == 1:
+                        g2 = copy.copy(new.generators[0])
+                        g2.target = ast.Name(id="e_", ctx=ast.Store())
+                        new.generators = [g2]
+                        new.elt = ast.Subscript(value=ast.Name(id="e_", ctx=ast.Load()), slice=ast.Constant(value=names.index(new.elt.id)),
+                                                ctx=ast.Load())
                 return new
 
             def visit_ListComp(self, n):
@@ -358,6 +383,11 @@ class Resolver:
                         def visit_Name(self, x):
                             return copy.deepcopy(sub_[x.id]) if x.id in sub_ and isinstance(x.ctx, ast.Load) else x
                     return Beta().visit(copy.deepcopy(n.func.body))
+                # operator.itemgetter(k)  is  lambda z: z[k]   (a sort / min key written either way)
+                if isinstance(n.func, ast.Name) and n.func.id == "itemgetter" and len(n.args) == 1 and not n.keywords \
+                        and isinstance(n.args[0], ast.Constant):
+                    return ast.Lambda(args=ast.arguments(posonlyargs=[], args=[ast.arg(arg="z")], kwonlyargs=[], kw_defaults=[], defaults=[]),
+                                      body=ast.Subscript(value=ast.Name(id="z", ctx=ast.Load()), slice=n.args[0], ctx=ast.Load()))
                 return r.norm_call(n)
 
             def visit_Subscript(self, n):
